@@ -26,6 +26,7 @@ func main() {
 	replay := flag.String("replay", "", "print the findings recorded in a replay file and re-run the property")
 	list := flag.Bool("list", false, "list registered properties")
 	opsFlag := flag.Bool("ops", false, "debug: dump the bucket operation table")
+	layoutFlag := flag.Bool("layout", false, "debug: dump the constant-offset record accesses of the codec functions")
 	patch := flag.String("patch", "", "analyse /repo with this unified diff applied through a go/packages overlay (scratch copies; /repo is not modified)")
 	evDir := flag.String("evidence-dir", "", "write evidence/replay files here instead of <verif>/evidence")
 	flag.Parse()
@@ -75,6 +76,10 @@ func main() {
 	}
 	if *opsFlag {
 		rules.DumpOps(p)
+		return
+	}
+	if *layoutFlag {
+		rules.DumpLayout(p)
 		return
 	}
 	if *dump != "" {
